@@ -231,13 +231,23 @@ func vh_C10_SubscribeOn() {
 	n := vfRange("n", 1, 2)
 	calls := make([]int, n)
 	where := make([]int, n)
+	subs := make([]*Subscription[int], n)
 	for i := 0; i < n; i++ {
 		id := i
-		p.Subscribe(Subscription[int]{OnNext: func(v int) { calls[id]++; where[id] = vfGoroutineID() }})
+		subs[i] = p.Subscribe(Subscription[int]{OnNext: func(v int) { calls[id]++; where[id] = vfGoroutineID() }})
 	}
 	v := vfInt("v")
-	vfNoPanic("nopanic", func() { p.Publish(v) })
+	late := 0
+	vfNoPanic("nopanic", func() {
+		p.Publish(v)
+		if vfChoose("churn-after-publish-returned", 2) == 1 {
+			// registered for the whole call: must still get v once; registered only afterwards: must not get it
+			p.Unsubscribe(subs[0])
+			p.Subscribe(Subscription[int]{OnNext: func(v int) { late++ }})
+		}
+	})
 	vfQuiesce()
+	vfAssert("lemma/added-after-publish-gets-nothing", late == 0)
 	for i := 0; i < n; i++ {
 		vfAssert("exactly-once-on-handler", calls[i] == 1)
 		vfAssert("runs-on-the-handler-goroutine", where[i] == hid)
